@@ -27,7 +27,6 @@ package c15
 import (
 	"bytes"
 	"crypto"
-	"crypto/rand"
 	"crypto/rsa"
 	"crypto/sha1"
 	"crypto/sha256"
@@ -35,6 +34,7 @@ import (
 	"encoding/json"
 	"fmt"
 	"hash"
+	"io"
 	"testing"
 
 	"github.com/gopcua/opcua/uapolicy"
@@ -60,11 +60,11 @@ type polT struct {
 }
 
 var table = []polT{
-	{"Basic128Rsa15", 1024, 2048, "pkcs1v15", "pkcs1v15-sha1"},              // Rsa15, RsaSha1
-	{"Basic256", 1024, 2048, "oaep-sha1", "pkcs1v15-sha1"},                  // RsaOaep, RsaSha1
-	{"Basic256Sha256", 2048, 4096, "oaep-sha1", "pkcs1v15-sha256"},          // RSA-OAEP-SHA1, RSA-PKCS15-SHA2-256
-	{"Aes128_Sha256_RsaOaep", 2048, 4096, "oaep-sha1", "pkcs1v15-sha256"},   // RSA-OAEP-SHA1, RSA-PKCS15-SHA2-256
-	{"Aes256_Sha256_RsaPss", 2048, 4096, "oaep-sha256", "pss-sha256"},       // RSA-OAEP-SHA2-256, RSA-PSS-SHA2-256
+	{"Basic128Rsa15", 1024, 2048, "pkcs1v15", "pkcs1v15-sha1"},            // Rsa15, RsaSha1
+	{"Basic256", 1024, 2048, "oaep-sha1", "pkcs1v15-sha1"},                // RsaOaep, RsaSha1
+	{"Basic256Sha256", 2048, 4096, "oaep-sha1", "pkcs1v15-sha256"},        // RSA-OAEP-SHA1, RSA-PKCS15-SHA2-256
+	{"Aes128_Sha256_RsaOaep", 2048, 4096, "oaep-sha1", "pkcs1v15-sha256"}, // RSA-OAEP-SHA1, RSA-PKCS15-SHA2-256
+	{"Aes256_Sha256_RsaPss", 2048, 4096, "oaep-sha256", "pss-sha256"},     // RSA-OAEP-SHA2-256, RSA-PSS-SHA2-256
 }
 
 func polByFrag(f string) *polT {
@@ -77,6 +77,16 @@ func polByFrag(f string) *polT {
 }
 
 func (p *polT) inRange(bits int) bool { return bits >= p.MinBits && bits <= p.MaxBits }
+
+func (p *polT) where(bits int) string {
+	switch {
+	case bits < p.MinBits:
+		return "below"
+	case bits > p.MaxBits:
+		return "above"
+	}
+	return "in"
+}
 
 func (p *polT) inRangeSizes() []int {
 	var out []int
@@ -121,6 +131,29 @@ func digest(h crypto.Hash, m []byte) []byte {
 	return x.Sum(nil)
 }
 
+// detReader is a deterministic byte stream (SHA-256 in counter mode) used as the
+// padding / salt source of the standard-library calls of the harness, so that a
+// case is a function of its rapid draws only. (crypto/rsa may still consume one
+// byte more or less by design; no verdict depends on the padding bytes.)
+type detReader struct {
+	seed, ctr uint64
+	buf       []byte
+}
+
+func (r *detReader) Read(p []byte) (int, error) {
+	for len(r.buf) < len(p) {
+		var in [16]byte
+		binary.LittleEndian.PutUint64(in[:8], r.seed)
+		binary.LittleEndian.PutUint64(in[8:], r.ctr)
+		r.ctr++
+		s := sha256.Sum256(in[:])
+		r.buf = append(r.buf, s[:]...)
+	}
+	n := copy(p, r.buf)
+	r.buf = r.buf[n:]
+	return n, nil
+}
+
 // stdlib primitives named by the policy
 func (p *polT) stdDecryptBlock(k *rsa.PrivateKey, blk []byte) ([]byte, error) {
 	if p.Enc == "pkcs1v15" {
@@ -129,17 +162,17 @@ func (p *polT) stdDecryptBlock(k *rsa.PrivateKey, blk []byte) ([]byte, error) {
 	return rsa.DecryptOAEP(p.oaepHash(), nil, k, blk, nil)
 }
 
-func (p *polT) stdEncryptBlock(k *rsa.PublicKey, m []byte) ([]byte, error) {
+func (p *polT) stdEncryptBlock(rnd io.Reader, k *rsa.PublicKey, m []byte) ([]byte, error) {
 	if p.Enc == "pkcs1v15" {
-		return rsa.EncryptPKCS1v15(rand.Reader, k, m)
+		return rsa.EncryptPKCS1v15(rnd, k, m)
 	}
-	return rsa.EncryptOAEP(p.oaepHash(), rand.Reader, k, m, nil)
+	return rsa.EncryptOAEP(p.oaepHash(), rnd, k, m, nil)
 }
 
-func (p *polT) stdSign(k *rsa.PrivateKey, m []byte) ([]byte, error) {
+func (p *polT) stdSign(rnd io.Reader, k *rsa.PrivateKey, m []byte) ([]byte, error) {
 	h := p.sigHash()
 	if p.Sig == "pss-sha256" {
-		return rsa.SignPSS(rand.Reader, k, h, digest(h, m), &rsa.PSSOptions{SaltLength: 32, Hash: h})
+		return rsa.SignPSS(rnd, k, h, digest(h, m), &rsa.PSSOptions{SaltLength: 32, Hash: h})
 	}
 	return rsa.SignPKCS1v15(nil, k, h, digest(h, m))
 }
@@ -318,6 +351,7 @@ func check(c *caseT) (msg string, nontrivial bool, classes []string) {
 		return "bad case: outside the input domain", false, nil
 	}
 	kA, kB, kC := c.Local.pair(), c.Remote.pair(), c.Other.pair()
+	rnd := &detReader{seed: c.Fill ^ 0x5eed}
 	classes = []string{"policy=" + p.Frag}
 
 	A, wantOK, m := construct(p, c.Local, c.Remote)
@@ -325,7 +359,7 @@ func check(c *caseT) (msg string, nontrivial bool, classes []string) {
 		return m, false, classes
 	}
 	if !wantOK {
-		classes = append(classes, "construction-rejected", fmt.Sprintf("%s/rejected/local=%d/remote=%d", p.Frag, c.Local.Bits, c.Remote.Bits))
+		classes = append(classes, "construction-rejected", p.Frag+"/rejected", fmt.Sprintf("rejected/local=%s/remote=%s", p.where(c.Local.Bits), p.where(c.Remote.Bits)))
 		return "", false, classes
 	}
 	B, _, m := construct(p, c.Remote, c.Local)
@@ -400,7 +434,7 @@ func check(c *caseT) (msg string, nontrivial bool, classes []string) {
 		if j > len(plain) {
 			j = len(plain)
 		}
-		blk, err := p.stdEncryptBlock(&kB.Key.PublicKey, plain[i:j])
+		blk, err := p.stdEncryptBlock(rnd, &kB.Key.PublicKey, plain[i:j])
 		if err != nil {
 			return "harness: standard library encryption failed: " + err.Error(), nontrivial, classes
 		}
@@ -433,7 +467,7 @@ func check(c *caseT) (msg string, nontrivial bool, classes []string) {
 	if err := B.VerifySignature(append([]byte(nil), message...), append([]byte(nil), sig...)); err != nil {
 		return fmt.Sprintf("B.VerifySignature rejects A's signature: %v", err), nontrivial, classes
 	}
-	ssig, err := p.stdSign(kA.Key, message)
+	ssig, err := p.stdSign(rnd, kA.Key, message)
 	if err != nil {
 		return "harness: standard library signing failed: " + err.Error(), nontrivial, classes
 	}
@@ -460,7 +494,7 @@ func check(c *caseT) (msg string, nontrivial bool, classes []string) {
 	if err := B.VerifySignature(append([]byte(nil), message...), append([]byte(nil), sig[:len(sig)-1]...)); err == nil {
 		return "B.VerifySignature accepts a signature with the last byte cut off", nontrivial, classes
 	}
-	forged, err := p.stdSign(kC.Key, message)
+	forged, err := p.stdSign(rnd, kC.Key, message)
 	if err != nil {
 		return "harness: standard library signing failed: " + err.Error(), nontrivial, classes
 	}
